@@ -495,7 +495,7 @@ func fieldErrorExpr(e ast.Expr) (field, err string, ok bool) {
 		}
 		return "", "", false
 	}
-	if strings.HasPrefix(id.Name, "NewErr") {
+	if strings.HasPrefix(id.Name, "NewErr") || id.Name == "NewFieldWrongLengthErr" {
 		return "", strings.TrimPrefix(id.Name, "New"), true
 	}
 	return "", "", false
